@@ -511,6 +511,35 @@ func genC17(r *Run) {
 		sub1, sub2 := r.Bytes(1+r.Rng.Intn(6)), r.Bytes(1+r.Rng.Intn(6))
 		p.UpdateOption(dhcpv4.OptRelayAgentInfo(dhcpv4.OptGeneric(dhcpv4.GenericOptionCode(1), sub1), dhcpv4.OptGeneric(dhcpv4.GenericOptionCode(2), sub2)))
 		expect("relay-agent", "RelayAgentInfo", p, [][]byte{someFlag, {1}, sub1, {2}, sub2})
+		// one caller-owned value given to two packets, then one packet is updated with another value of the same length:
+		// the other packet and the caller's value are untouched
+		{
+			ip1, ip2 := net.IP(r.Bytes(4)), net.IP(r.Bytes(4))
+			keep1 := append(net.IP{}, ip1...)
+			pa, _ := dhcpv4.New(dhcpv4.WithOption(dhcpv4.OptServerIdentifier(ip1)), dhcpv4.WithOption(dhcpv4.OptRequestedIPAddress(ip1)))
+			pb, _ := dhcpv4.New(dhcpv4.WithOption(dhcpv4.OptServerIdentifier(ip1)))
+			pa.UpdateOption(dhcpv4.OptServerIdentifier(ip2))
+			pa.UpdateOption(dhcpv4.OptRequestedIPAddress(ip2))
+			evals++
+			if !pb.ServerIdentifier().Equal(keep1) || !ip1.Equal(keep1) || !pa.ServerIdentifier().Equal(ip2) {
+				r.Fail("set-get-shared-value", "ServerIdentifier", fmt.Sprintf("after updating packet A from %v to %v: packet B reads %v, the caller's value reads %v, A reads %v", keep1, ip2, pb.ServerIdentifier(), ip1, pa.ServerIdentifier()))
+			}
+			mask1, mask2 := net.IPMask(r.Bytes(4)), net.IPMask(r.Bytes(4))
+			keepM := append(net.IPMask{}, mask1...)
+			pc, _ := dhcpv4.New(dhcpv4.WithOption(dhcpv4.OptSubnetMask(mask1)))
+			pc.UpdateOption(dhcpv4.OptSubnetMask(mask2))
+			if !bytes.Equal(mask1, keepM) || !bytes.Equal(pc.SubnetMask(), mask2) {
+				r.Fail("set-get-shared-value", "SubnetMask", "updating the option rewrote the caller's first mask")
+			}
+			g1, g2 := r.Bytes(5), r.Bytes(5)
+			keepG := append([]byte{}, g1...)
+			pd, _ := dhcpv4.New(dhcpv4.WithGeneric(dhcpv4.GenericOptionCode(200), g1))
+			pe, _ := dhcpv4.NewReplyFromRequest(pd, dhcpv4.WithOptionCopied(pd, dhcpv4.GenericOptionCode(200)))
+			pe.UpdateOption(dhcpv4.OptGeneric(dhcpv4.GenericOptionCode(200), g2))
+			if !bytes.Equal(g1, keepG) || !bytes.Equal(pd.Options.Get(dhcpv4.GenericOptionCode(200)), keepG) {
+				r.Fail("set-get-shared-value", "generic option copied into a reply", "updating the reply rewrote the request's option value")
+			}
+		}
 		// search domains: fresh, then read - edit in place - set again
 		names, _ := r.validNames()
 		if len(names) == 0 {
